@@ -94,42 +94,35 @@ GC(f) ==
                 !.rfcs = TLCEval(f.rfcs)]
 
 (***************************************************************************)
-(* retarget_references(block, to_block, at_end)                            *)
+(* retarget_references(block, to_block, at_end), links the source trees    *)
+(* under the target's start / end node (to_block # None).  The branch for  *)
+(* to_block = None (`assert not any(self.get_references(block))`) needs    *)
+(* the generator and is defined after it: BRetarget below.                 *)
 (***************************************************************************)
-BRetarget(f, b, to, e) ==
+BRetargetLink(f, b, to, e) ==
   LET drefs == {s \in Syms : f.dir[s] = b}            \* block.references
       has == f.rfcs[b] # NoPair
-  IN
-  IF drefs = {} /\ ~has THEN f
-  ELSE
-    LET ok == to # None                                  \* `assert to_block`, see RetargetRaises
-        n1 == IF has THEN f.rfcs[b][1] ELSE NewId(Nodes(f))
-        n2 == IF has THEN f.rfcs[b][2] ELSE NewId(Nodes(f) \cup {n1})
-        f1 == IF has THEN [f EXCEPT !.rfcs[b] = NoPair]          \* pop
-              ELSE AddNode(AddNode(f, n1, b), n2, b)
-        \* direct references become indirect
-        ok2 == Assert(\A s \in drefs : f.rfts[s] = 0, "symbol has both direct and indirect references")
-        f2 == [f1 EXCEPT !.sy[n1] = @ \cup {s \in drefs : ~f.ate[s]},
-                         !.sy[n2] = @ \cup {s \in drefs : f.ate[s]},
-                         !.rfts = TLCEval([s \in Syms |-> IF s \in drefs
-                                                  THEN (IF f.ate[s] THEN n2 ELSE n1)
-                                                  ELSE f.rfts[s]]),
-                         !.dir = TLCEval([s \in Syms |-> IF s \in drefs THEN None ELSE f.dir[s]])]
-        hasTo == f2.rfcs[to] # NoPair
-        t1 == IF hasTo THEN f2.rfcs[to][1] ELSE NewId(Nodes(f2))
-        t2 == IF hasTo THEN f2.rfcs[to][2] ELSE NewId(Nodes(f2) \cup {t1})
-        f3 == IF hasTo THEN f2
-              ELSE [AddNode(AddNode(f2, t1, to), t2, to) EXCEPT !.rfcs[to] = <<t1, t2>>]
-        tgt == IF e THEN t2 ELSE t1
-    IN  IF ok /\ ok2
-        THEN [f3 EXCEPT !.ch[tgt] = @ \cup {n1, n2}, !.par[n1] = tgt, !.par[n2] = tgt]
-        ELSE f
-
-\* `assert to_block` fails.  In the domain of the property (to = None only
-\* when nothing refers to the block) this happens exactly when a stale pair
-\* of empty trees is still registered for the block: open finding KF-C20-1.
-RetargetRaises(f, b, to) ==
-  to = None /\ ~({s \in Syms : f.dir[s] = b} = {} /\ f.rfcs[b] = NoPair)
+      n1 == IF has THEN f.rfcs[b][1] ELSE NewId(Nodes(f))
+      n2 == IF has THEN f.rfcs[b][2] ELSE NewId(Nodes(f) \cup {n1})
+      f1 == IF has THEN [f EXCEPT !.rfcs[b] = NoPair]          \* pop
+            ELSE AddNode(AddNode(f, n1, b), n2, b)
+      \* direct references become indirect
+      ok2 == Assert(\A s \in drefs : f.rfts[s] = 0, "symbol has both direct and indirect references")
+      f2 == [f1 EXCEPT !.sy[n1] = @ \cup {s \in drefs : ~f.ate[s]},
+                       !.sy[n2] = @ \cup {s \in drefs : f.ate[s]},
+                       !.rfts = TLCEval([s \in Syms |-> IF s \in drefs
+                                                THEN (IF f.ate[s] THEN n2 ELSE n1)
+                                                ELSE f.rfts[s]]),
+                       !.dir = TLCEval([s \in Syms |-> IF s \in drefs THEN None ELSE f.dir[s]])]
+      hasTo == f2.rfcs[to] # NoPair
+      t1 == IF hasTo THEN f2.rfcs[to][1] ELSE NewId(Nodes(f2))
+      t2 == IF hasTo THEN f2.rfcs[to][2] ELSE NewId(Nodes(f2) \cup {t1})
+      f3 == IF hasTo THEN f2
+            ELSE [AddNode(AddNode(f2, t1, to), t2, to) EXCEPT !.rfcs[to] = <<t1, t2>>]
+      tgt == IF e THEN t2 ELSE t1
+  IN  IF ok2
+      THEN [f3 EXCEPT !.ch[tgt] = @ \cup {n1, n2}, !.par[n1] = tgt, !.par[n2] = tgt]
+      ELSE f
 
 (***************************************************************************)
 (* get_referent(symbol): walk to the root, compressing and pruning         *)
@@ -234,6 +227,17 @@ Run(c, k) ==
 
 Limit == 2 * NS + 2
 BGetReferences(f, b, k) == Run(GenStart(f, b), IF k = KAll THEN Limit ELSE k)
+
+\* retarget_references: the set of possible resulting cache states.
+\* to_block = None: `any(get_references(block))` must find nothing (else the
+\* call is outside the domain: AssertionError); running the generator to its
+\* end also drops a pair of empty trees left over from earlier retargets.
+BRetarget(f, b, to, e) ==
+  IF {s \in Syms : f.dir[s] = b} = {} /\ f.rfcs[b] = NoPair THEN {f}
+  ELSE IF to = None
+  THEN {LET ok == Assert(o.out = <<>> /\ o.fin, "retarget_references: assert not any(get_references(block))")
+        IN  IF ok THEN o.f ELSE f : o \in Run(GenStart(f, b), 1)}
+  ELSE {BRetargetLink(f, b, to, e)}
 
 \* the generators that apply() consumes: only the indirect part of block b
 BApplyBlock(f, b) ==
@@ -409,7 +413,7 @@ AssignOps == {<<OpAssign, s, to, e>> : s \in KnownDirect, to \in 0..NB, e \in 0.
 Log(op) == hist' = <<hist[1], Append(hist[2], op)>>
 
 Retarget(b, to, e) ==
-  /\ F' = GC(BRetarget(F, b, to, e = 1))       \* unchanged when the assert fires
+  /\ \E g \in BRetarget(F, b, to, e = 1) : F' = GC(g)
   /\ ref' = ARetarget(ref, b, to, e = 1)
   /\ Log(<<OpRetarget, b, to, e>>)
 
@@ -493,6 +497,5 @@ SetToSeq(S) == LET RECURSIVE f(_)
 EmitCase ==
   Emit => PrintT("CASE " \o ToJson([k |-> "rc", nb |-> NB, ns |-> NS, init |-> hist[1],
                                      wit |-> hist[2], en |-> EnabledOps \cup AssignOps,
-                                     kf |-> {op \in EnabledOps : op[1] = OpRetarget /\ RetargetRaises(F, op[2], op[3])},
                                      d |-> Len(hist[2])]))
 =============================================================================
